@@ -1,10 +1,13 @@
-(* C11 -- moves into rule draws are scored as draws.  PARTIAL.
-   Proved on the model: a non-root node of positive depth that is not interrupted returns DRAW_SCORE when its
-   half-move clock has reached 100 or when its key occurs twice (itself and an earlier position of the same side to
-   move) inside the look-back window of halfmoves + 1 history entries.  The root-level statement (every iteration >= 2
-   reports -DRAW_SCORE when all successors are such nodes) is decided by the correspondence run. *)
+(* C11 -- moves into rule draws are scored as draws.
+   PROVED on the model at the root level (C11_root_all_drawn): for every stop predicate and fuel, an empty table (new or
+   cleared), a root satisfying the invariant whose every generated move leads to a position that is rule-drawn as the child node
+   sees it (half-move clock >= 100, or its key occurs again in the look-back window of halfmoves + 1 entries of the history the
+   root hands down), and no successor key equal to the root's key (`no_clash`: the only entries written during such a search are
+   the root's own; this excludes a cut-off from them), every REPORTED iteration of depth >= 2 carries the score -DRAW_SCORE and
+   the answer is a legal move.  Iteration 1 is excluded by the property text and rightly so (its children sit at the horizon and
+   the quiescence search has no draw test).  Node-level lemmas: C11_draw_by_clock, C11_draw_by_repetition, C11_root_loop_all_draw. *)
 From Coq Require Import NArith ZArith List Bool.
-From Rawr Require Import Consts Bits Magic Position MoveGen MakeMove Eval TT Search SearchFacts2.
+From Rawr Require Import Consts Bits Magic Position MoveGen MakeMove Eval TT Search MakeStages SearchFacts2 Closure MenCount EpRetro SearchBound RootDraw.
 Import ListNotations.
 Local Open Scope Z_scope.
 
@@ -37,6 +40,21 @@ Proof. exact root_loop_all_draw. Qed.
 Example C11_window_example : count_rep (Z.to_nat (4 + 1)) [7; 1; 2; 3; 7]%N 7%N true = 2.
 Proof. vm_compute. reflexivity. Qed.
 
+(* ---- the root-level statement *)
+Theorem C11_root_all_drawn : forall (stopf : Stats -> bool) fuel p hist tt r,
+  InvSR p -> Z.of_nat fuel <= 2 * MATE_SCORE -> legal_moves p <> [] ->
+  table_empty tt ->
+  (forall m, In m (legal_moves p) -> rule_drawn (makemove true p m) hist) ->
+  no_clash p ->
+  root stopf fuel p hist tt = Some r ->
+  (forall i, In i (rr_infos r) -> 2 <= i_depth i -> i_score i = - DRAW_SCORE)
+  /\ exists m, rr_best r = Some m /\ In m (legal_moves p).
+Proof. exact root_all_drawn. Qed.
+Theorem C11_new_and_cleared_tables_are_empty : forall mb t, table_empty (tt_new mb) /\ table_empty (tt_clear t).
+Proof. intros mb t. split; [apply table_empty_new|apply table_empty_clear]. Qed.
+
 Print Assumptions C11_draw_by_clock.
 Print Assumptions C11_draw_by_repetition.
 Print Assumptions C11_root_loop_all_draw.
+Print Assumptions C11_root_all_drawn.
+Print Assumptions C11_new_and_cleared_tables_are_empty.
